@@ -3355,4 +3355,1242 @@ theorem handleData_inv (e : Engine) (bs : Bytes) (hinv : Inv e) : Inv (e.handleD
       · exact h1.halt
       · exact (handlePackets_inv _ _ h1 hnd).1
 
+/-! ### service: seating the next operation -/
+
+theorem dequeue_cases (e : Engine) (all : Bool) :
+    ((e.dequeue all).2 = none ∧ (e.dequeue all).1 = e) ∨
+    (∃ id r, e.highQ = id :: r ∧ e.dequeue all = ({ e with highQ := r }, some id)) ∨
+    (∃ id r, all = true ∧ e.highQ = [] ∧ e.resubQ = id :: r ∧ e.passesReceiveMaximum id = true ∧ e.dequeue all = ({ e with resubQ := r }, some id)) ∨
+    (∃ id r, all = true ∧ e.highQ = [] ∧ e.resubQ = [] ∧ e.userQ = id :: r ∧ e.passesReceiveMaximum id = true ∧ e.dequeue all = ({ e with userQ := r }, some id)) := by
+  unfold Engine.dequeue
+  split
+  · exact .inl ⟨rfl, rfl⟩
+  · cases hh : e.highQ with
+    | cons id r => exact .inr (.inl ⟨id, r, rfl, rfl⟩)
+    | nil =>
+      simp only []
+      split
+      · exact .inl ⟨rfl, rfl⟩
+      · rename_i hall
+        have hall' : all = true := by simpa using hall
+        split
+        · exact .inl ⟨rfl, rfl⟩
+        · cases hr : e.resubQ with
+          | cons id r =>
+            simp only []
+            split
+            · rename_i hp; exact .inr (.inr (.inl ⟨id, r, hall', (by first | rfl | trivial), (by first | rfl | trivial), hp, (by first | rfl | trivial)⟩))
+            · exact .inl ⟨rfl, rfl⟩
+          | nil =>
+            simp only []
+            cases hu : e.userQ with
+            | cons id r =>
+              simp only []
+              split
+              · rename_i hp; exact .inr (.inr (.inr ⟨id, r, hall', (by first | rfl | trivial), (by first | rfl | trivial), (by first | rfl | trivial), hp, (by first | rfl | trivial)⟩))
+              · exact .inl ⟨rfl, rfl⟩
+            | nil => exact .inl ⟨rfl, rfl⟩
+
+theorem acquireIdFor_current_comm (e : Engine) (c : Option Nat) (id : Nat) :
+    ({ e with current := c } : Engine).acquireIdFor id = ({ (e.acquireIdFor id).1 with current := c }, (e.acquireIdFor id).2) := by
+  unfold Engine.acquireIdFor
+  have hop : ({ e with current := c } : Engine).op? id = e.op? id := rfl
+  rw [hop]
+  cases e.op? id with
+  | none => rfl
+  | some o =>
+    simp only []
+    split
+    · rfl
+    · split
+      · rfl
+      · unfold Engine.acquireFreeId
+        have hal : ({ e with current := c } : Engine).allocated = e.allocated := rfl
+        have hnp : ({ e with current := c } : Engine).nextPacketId = e.nextPacketId := rfl
+        rw [hal, hnp]
+        generalize acquireLoop e.allocated e.nextPacketId 65536 e.nextPacketId e.nextPacketId = r
+        obtain ⟨found, next⟩ := r
+        cases found <;> rfl
+
+/-- what `acquire_packet_id_for_operation` does to the table and the rest -/
+theorem acquireIdFor_lookup (e : Engine) (hok : e.core.Ok) (id j : Nat) (x' : Op) (h : (e.acquireIdFor id).1.ops.lookup j = some x') :
+    ∃ x, e.ops.lookup j = some x ∧ isAckedPublish x'.packet = isAckedPublish x.packet ∧ needsPacketId x'.packet = needsPacketId x.packet ∧
+      isConnectPacket x'.packet = isConnectPacket x.packet ∧
+      (j = id → (e.acquireIdFor id).2 = .ok → needsPacketId x.packet = true → x'.packetId.isSome = true) := by
+  unfold Engine.acquireIdFor at h ⊢
+  cases ho : e.op? id with
+  | none =>
+    simp only [ho] at h ⊢
+    refine ⟨x', h, rfl, rfl, rfl, ?_⟩
+    intro _ hr; cases hr
+  | some o =>
+    simp only [ho] at h ⊢
+    split at h
+    · rename_i hsome
+      simp only [hsome, ↓reduceIte]
+      refine ⟨x', h, rfl, rfl, rfl, ?_⟩
+      intro hj _ _
+      subst hj
+      have : e.ops.lookup j = some o := ho
+      rw [this] at h; cases h; exact hsome
+    · rename_i hsome
+      simp only [hsome, Bool.false_eq_true, ↓reduceIte]
+      split at h
+      · rename_i hneed
+        simp only [hneed, ↓reduceIte]
+        refine ⟨x', h, rfl, rfl, rfl, ?_⟩
+        intro hj _ hn
+        subst hj
+        have : e.ops.lookup j = some o := ho
+        rw [this] at h; cases h
+        rw [hn] at hneed; simp at hneed
+      · rename_i hneed
+        simp only [hneed, Bool.false_eq_true, ↓reduceIte]
+        have hc := acquireFreeId_core e id
+        cases hf : (e.acquireFreeId id).2 with
+        | none =>
+          have hh : e.acquireFreeId id = ((e.acquireFreeId id).1, none) := by rw [← hf]
+          rw [hh] at h ⊢
+          simp only [] at h ⊢
+          rw [hc.2] at h
+          refine ⟨x', h, rfl, rfl, rfl, ?_⟩
+          intro _ hr; cases hr
+        | some pid =>
+          have hh : e.acquireFreeId id = ((e.acquireFreeId id).1, some pid) := by rw [← hf]
+          rw [hh] at h ⊢
+          simp only [] at h ⊢
+          have hok1 : (e.acquireFreeId id).1.core.Ok := by rw [hc.1]; exact hok
+          have ho1 : (e.acquireFreeId id).1.op? id = some o := by simp only [Engine.op?, hc.2]; exact ho
+          rcases setOp_lookup (e.acquireFreeId id).1 hok1 id o { o with packetId := some pid, packet := withPacketId o.packet pid } ho1 rfl j x' h with ⟨rfl, rfl⟩ | ⟨_, hx⟩
+          · have hw := withPacketId_class o.packet pid
+            exact ⟨o, ho, hw.2.1, hw.1, hw.2.2.2.1, fun _ _ _ => rfl⟩
+          · rw [hc.2] at hx
+            refine ⟨x', hx, rfl, rfl, rfl, ?_⟩
+            intro hj; rename_i hne; exact absurd hj hne
+
+theorem acquireIdFor_frame (e : Engine) (id : Nat) :
+    (e.acquireIdFor id).1.state = e.state ∧ (e.acquireIdFor id).1.pendingPub = e.pendingPub ∧ (e.acquireIdFor id).1.settings = e.settings ∧
+    (e.acquireIdFor id).1.current = e.current ∧ (e.acquireIdFor id).1.nextOpId = e.nextOpId ∧
+    (e.acquireIdFor id).1.userQ = e.userQ ∧ (e.acquireIdFor id).1.resubQ = e.resubQ := by
+  unfold Engine.acquireIdFor
+  cases e.op? id with
+  | none => exact ⟨rfl, rfl, rfl, rfl, rfl, rfl, rfl⟩
+  | some o =>
+    simp only []
+    split
+    · exact ⟨rfl, rfl, rfl, rfl, rfl, rfl, rfl⟩
+    · split
+      · exact ⟨rfl, rfl, rfl, rfl, rfl, rfl, rfl⟩
+      · unfold Engine.acquireFreeId
+        generalize acquireLoop e.allocated e.nextPacketId 65536 e.nextPacketId e.nextPacketId = r
+        obtain ⟨found, next⟩ := r
+        cases found <;> exact ⟨rfl, rfl, rfl, rfl, rfl, rfl, rfl⟩
+
+/-- the invariant with every state-conditioned clause switched off (what is left to show when the engine is about to halt) -/
+def BigH (en : Engine) : Prop := Big [] [] { en.view with state := .halted }
+
+theorem Big.toH {en : Engine} (h : Big [] [] en.view) : BigH en := h.halt
+
+/-- the popped operation becomes the current one and gets its packet id -/
+theorem seat_core (e e1 : Engine) (id : Nat) (hok1 : e1.core.Ok) (hpop : Big [id] [] e1.view)
+    (hE : e1.ops = e.ops ∧ e1.state = e.state ∧ e1.pendingPub = e.pendingPub ∧ e1.settings = e.settings ∧ e1.current = none ∧ e1.nextOpId = e.nextOpId)
+    (hlt : id < e.nextOpId)
+    (hpc : e.state = .pendingConnack → ∀ o, e.ops.lookup id = some o → isConnectPacket o.packet = true)
+    (hfl : e.state = .connected → ∀ o rm, e.ops.lookup id = some o → isAckedPublish o.packet = true → e.settings.map (·.receiveMaximum) = some rm →
+      id ∈ vals e.pendingPub ∨ e.pendingPub.length < rm) :
+    ((({ e1 with current := some id } : Engine).acquireIdFor id).2 = .ok → Big [] [] (({ e1 with current := some id } : Engine).acquireIdFor id).1.view) ∧
+    BigH (({ e1 with current := some id } : Engine).acquireIdFor id).1 := by
+  rw [acquireIdFor_current_comm]
+  simp only []
+  have sa := acquireIdFor_stp (S := [id]) e1 id
+  have ha : Big [id] [] (e1.acquireIdFor id).1.view := sa.keeps hok1 hpop
+  have fr := acquireIdFor_frame e1 id
+  have back := acquireIdFor_lookup e1 hok1 id
+  constructor
+  · intro hr
+    show Big [] [] { (e1.acquireIdFor id).1.view with current := some id }
+    refine ha.setCurrent (some id) ?_ ?_ ?_ ?_ ?_ ?_
+    · intro i hi
+      rw [show (e1.acquireIdFor id).1.view.current = (e1.acquireIdFor id).1.current from rfl, fr.2.2.2.1, hE.2.2.2.2.1] at hi; cases hi
+    · intro i hi
+      rcases List.mem_cons.mp hi with rfl | a
+      · exact .inl rfl
+      · cases a
+    · intro i hi; cases hi
+      show id < (e1.acquireIdFor id).1.nextOpId
+      rw [fr.2.2.2.2.1, hE.2.2.2.2.2]; exact hlt
+    · intro hs i hi o ho
+      cases hi
+      obtain ⟨x, hx, _, _, k3, _⟩ := back id o ho
+      rw [k3]
+      rw [hE.1] at hx
+      exact hpc (by rw [← hE.2.1, ← fr.1]; exact hs) x hx
+    · intro hs i hi o ho hn
+      cases hi
+      obtain ⟨x, hx, _, k2, _, k4⟩ := back id o ho
+      exact k4 rfl hr (by rw [← k2]; exact hn)
+    · intro hs rm hrm i hi o ho hk
+      cases hi
+      obtain ⟨x, hx, k1, _, _, _⟩ := back id o ho
+      rw [hE.1] at hx
+      have hst : e.state = .connected := by rw [← hE.2.1, ← fr.1]; exact hs
+      have hrm' : e.settings.map (·.receiveMaximum) = some rm := by
+        rw [← hE.2.2.2.1, ← fr.2.2.1]; exact hrm
+      have := hfl hst x rm hx (by rw [← k1]; exact hk) hrm'
+      rw [show (e1.acquireIdFor id).1.view.pendingPub = (e1.acquireIdFor id).1.pendingPub from rfl, fr.2.1, hE.2.2.1]
+      exact this
+  · show Big [] [] { { (e1.acquireIdFor id).1.view with current := some id } with state := .halted }
+    have hh : Big [id] [] { (e1.acquireIdFor id).1.view with state := .halted } := ha.halt
+    have : Big [] [] { { (e1.acquireIdFor id).1.view with state := .halted } with current := some id } := by
+      refine hh.setCurrent (some id) ?_ ?_ ?_ (fun hs => by cases hs) (fun hs => by cases hs) (fun hs => by cases hs)
+      · intro i hi
+        rw [show ({ (e1.acquireIdFor id).1.view with state := PState.halted } : View).current = (e1.acquireIdFor id).1.current from rfl, fr.2.2.2.1, hE.2.2.2.2.1] at hi; cases hi
+      · intro i hi
+        rcases List.mem_cons.mp hi with rfl | a
+        · exact .inl rfl
+        · cases a
+      · intro i hi; cases hi
+        show id < (e1.acquireIdFor id).1.nextOpId
+        rw [fr.2.2.2.2.1, hE.2.2.2.2.2]; exact hlt
+    exact this
+
+/-- what a service step does to the queues and the state: queues only lose heads, the state never becomes Disconnected
+    or (from something else) Connected -/
+structure SV (e e' : Engine) : Prop where
+  sufU : e'.userQ <:+ e.userQ
+  sufR : e'.resubQ <:+ e.resubQ
+  nd : e.state ≠ .disconnected → e'.state ≠ .disconnected
+  conn : e'.state = .connected → e.state = .connected
+  pc : e'.state = .pendingConnack → e.state = .pendingConnack
+
+theorem SV.refl (e : Engine) : SV e e := ⟨List.suffix_refl _, List.suffix_refl _, fun h => h, fun h => h, fun h => h⟩
+theorem SV.trans {a b c : Engine} (h1 : SV a b) (h2 : SV b c) : SV a c :=
+  ⟨h2.sufU.trans h1.sufU, h2.sufR.trans h1.sufR, fun h => h2.nd (h1.nd h), fun h => h1.conn (h2.conn h), fun h => h1.pc (h2.pc h)⟩
+
+theorem SV.of_qv {e e' : Engine} (h : QV e.view e'.view) : SV e e' := by
+  refine ⟨by rw [show e'.userQ = e.userQ from h.1]; exact List.suffix_refl _, by rw [show e'.resubQ = e.resubQ from h.2.1]; exact List.suffix_refl _, ?_, ?_, ?_⟩
+  · intro hn
+    rcases h.2.2 with a | a
+    · rw [show e'.state = e.state from a]; exact hn
+    · rw [show e'.state = .halted from a]; decide
+  · intro hc
+    rcases h.2.2 with a | a
+    · rw [← show e'.state = e.state from a]; exact hc
+    · rw [show e'.state = .halted from a] at hc; cases hc
+  · intro hc
+    rcases h.2.2 with a | a
+    · rw [← show e'.state = e.state from a]; exact hc
+    · rw [show e'.state = .halted from a] at hc; cases hc
+
+theorem SV.of_frame {e e' : Engine} (h1 : e'.userQ = e.userQ) (h2 : e'.resubQ = e.resubQ) (h3 : e'.state = e.state) : SV e e' :=
+  ⟨by rw [h1]; exact List.suffix_refl _, by rw [h2]; exact List.suffix_refl _, fun h => by rw [h3]; exact h, fun h => by rw [← h3]; exact h, fun h => by rw [← h3]; exact h⟩
+
+theorem SV.halt {e e' : Engine} (h : SV e e') : SV e { e' with state := .halted } :=
+  ⟨h.sufU, h.sufR, (fun _ hh => by cases hh), (fun hc => by cases hc), (fun hc => by cases hc)⟩
+
+theorem sortedNat_suffix {l l' : List Nat} (hs : l' <:+ l) (h : sortedNat l = true) : sortedNat l' = true := by
+  obtain ⟨p, rfl⟩ := hs
+  induction p with
+  | nil => exact h
+  | cons a t ih => exact ih (sortedNat_tail a _ h)
+
+/-- the result of a service function: the invariant holds unless an error is returned, in which case it holds once the
+    engine has been halted (which is what `service` does with an error) -/
+def Outcome (x : Engine × Res) : Prop := BigH x.1 ∧ ((∀ k, x.2 ≠ .err k) → Big [] [] x.1.view)
+
+theorem Outcome.of_big {x : Engine × Res} (h : Big [] [] x.1.view) : Outcome x := ⟨h.toH, fun _ => h⟩
+
+def SeatOut (e : Engine) : Seat → Prop
+  | .ret e' r => Outcome (e', r) ∧ SV e e'
+  | .cont e' => Big [] [] e'.view ∧ SV e e'
+  | .encode e' => Big [] [] e'.view ∧ SV e e' ∧ e'.state = e.state
+
+/-- last-chance validation failed: the operation is failed and the loop goes on -/
+theorem rejectCurrent_out (e4 : Engine) (id : Nat) (resolution : Resolution) (x : VErr) (hok : e4.core.Ok) (h : Big [] [] e4.view) (hc : e4.current = some id) :
+    SeatOut e4 (e4.rejectCurrent id resolution x) := by
+  unfold Engine.rejectCurrent
+  simp only []
+  have hv : ∀ b : Bool, (if b = true then ({ e4 with outRes := e4.outRes.reset ((e4.settings.map (·.topicAliasMaximum)).getD 0) } : Engine) else e4).view = e4.view ∧
+      (if b = true then ({ e4 with outRes := e4.outRes.reset ((e4.settings.map (·.topicAliasMaximum)).getD 0) } : Engine) else e4).core = e4.core := by
+    intro b; cases b <;> exact ⟨rfl, rfl⟩
+  have hvr := hv resolution.alias.isSome
+  generalize (if resolution.alias.isSome = true then
+      ({ e4 with outRes := e4.outRes.reset ((e4.settings.map (·.topicAliasMaximum)).getD 0) } : Engine) else e4) = e4r at hvr ⊢
+  have hr : Big [] [] e4r.view := by rw [hvr.1]; exact h
+  have hokr : e4r.core.Ok := by rw [hvr.2]; exact hok
+  have hcr : e4r.view.current = some id := by rw [hvr.1]; exact hc
+  have h1 : Big [id] [] ({ e4r with current := none } : Engine).view := hr.clearCurrent id hcr
+  have hok1 : ({ e4r with current := none } : Engine).core.Ok := hokr
+  have s5 := completeFailure_step_drop (S := []) (U := []) { e4r with current := none } id x.name
+  have h5 := s5.keeps hok1 h1
+  have sv5 : SV e4 (({ e4r with current := none } : Engine).completeFailure id x.name).1 := by
+    have a : SV e4 { e4r with current := none } :=
+      SV.of_frame (congrArg View.userQ hvr.1) (congrArg View.resubQ hvr.1) (congrArg View.state hvr.1)
+    exact a.trans (SV.of_qv (completeFailure_hk _ id x.name).qv)
+  generalize ({ e4r with current := none } : Engine).completeFailure id x.name = z at h5 sv5 ⊢
+  obtain ⟨e5, r5⟩ := z
+  simp only [] at h5 sv5 ⊢
+  split
+  · exact ⟨h5, sv5⟩
+  · exact ⟨Outcome.of_big h5, sv5⟩
+
+theorem acquireIdFor_result (e : Engine) (id : Nat) (o : Op) (ho : e.op? id = some o) :
+    (e.acquireIdFor id).2 = .ok ∨ (e.acquireIdFor id).2 = .err "InternalStateError" := by
+  unfold Engine.acquireIdFor
+  simp only [ho]
+  split
+  · exact .inl rfl
+  · split
+    · exact .inl rfl
+    · cases hf : (e.acquireFreeId id).2 with
+      | none =>
+        have hh : e.acquireFreeId id = ((e.acquireFreeId id).1, none) := by rw [← hf]
+        rw [hh]; exact .inr rfl
+      | some pid =>
+        have hh : e.acquireFreeId id = ((e.acquireFreeId id).1, some pid) := by rw [← hf]
+        rw [hh]; exact .inl rfl
+
+theorem view_current_none (e : Engine) (h : e.current = none) : ({ e with current := none } : Engine).view = e.view := by
+  show { e.view with current := none } = e.view
+  have : e.view.current = none := h
+  cases hv : e.view with
+  | mk a b c d f g cur i j k l m n o => rw [hv] at this; simp only at this; subst this; rfl
+
+theorem prepareCurrent_out (e3 : Engine) (id : Nat) (o : Op) (hok : e3.core.Ok) (h : Big [] [] e3.view) (hc : e3.current = some id) :
+    SeatOut e3 (e3.prepareCurrent id o) := by
+  unfold Engine.prepareCurrent
+  simp only []
+  generalize e3.resolveOutbound (o.pubrel.getD o.packet) = rr
+  obtain ⟨res', resolution⟩ := rr
+  simp only []
+  have h4 : Big [] [] ({ e3 with outRes := res' } : Engine).view := h
+  have sv4 : SV e3 { e3 with outRes := res' } := SV.of_frame rfl rfl rfl
+  split
+  · exact ⟨Outcome.of_big h4, sv4⟩
+  · rename_i x _ _
+    have r := rejectCurrent_out { e3 with outRes := res' } id resolution x hok h4 hc
+    generalize ({ e3 with outRes := res' } : Engine).rejectCurrent id resolution x = sx at r ⊢
+    cases sx with
+    | ret e' r' => exact ⟨r.1, sv4.trans r.2⟩
+    | cont e' => exact ⟨r.1, sv4.trans r.2⟩
+    | encode e' => exact ⟨r.1, sv4.trans r.2.1, r.2.2⟩
+  · split
+    · exact ⟨Outcome.of_big h4, sv4⟩
+    · exact ⟨h4, SV.of_frame rfl rfl rfl, rfl⟩
+
+theorem passesRM_flow (e : Engine) (id : Nat) (hp : e.passesReceiveMaximum id = true) :
+    ∀ o rm, e.ops.lookup id = some o → isAckedPublish o.packet = true → e.settings.map (·.receiveMaximum) = some rm →
+      id ∈ vals e.pendingPub ∨ e.pendingPub.length < rm := by
+  intro o rm ho hk hrm
+  right
+  unfold Engine.passesReceiveMaximum at hp
+  cases hs : e.settings with
+  | none => rw [hs] at hrm; cases hrm
+  | some st =>
+    rw [hs] at hp hrm
+    simp only [Option.map_some, Option.some.injEq] at hrm
+    simp only [] at hp
+    by_cases hge : e.pendingPub.length ≥ st.receiveMaximum
+    · rw [if_pos hge] at hp
+      have : e.op? id = some o := ho
+      rw [this] at hp
+      simp only [Option.bind_some] at hp
+      cases hpk : o.packet with
+      | publish pb =>
+        rw [hpk] at hp hk
+        simp only [publishQos, beq_iff_eq] at hp
+        simp only [isAckedPublish, bne_iff_ne, ne_eq] at hk
+        exact absurd hp hk
+      | _ => rw [hpk] at hk; simp [isAckedPublish] at hk
+    · rw [← hrm]; omega
+
+/-- the `if self.current_operation.is_none() { ... }` block -/
+theorem seatCurrent_out (e : Engine) (all : Bool) (hok : e.core.Ok) (h : Big [] [] e.view)
+    (hall : all = true → e.state = .connected) : SeatOut e (e.seatCurrent all) := by
+  unfold Engine.seatCurrent
+  cases hc : e.current with
+  | some c => exact ⟨h, SV.refl e, rfl⟩
+  | none =>
+    simp only []
+    -- the three queues an operation can be taken from
+    have main : ∀ (e1 : Engine) (id : Nat), e1.core.Ok → Big [id] [] e1.view →
+        (e1.ops = e.ops ∧ e1.state = e.state ∧ e1.pendingPub = e.pendingPub ∧ e1.settings = e.settings ∧ e1.current = none ∧ e1.nextOpId = e.nextOpId) →
+        SV e e1 → id < e.nextOpId →
+        (e.state = .pendingConnack → ∀ o, e.ops.lookup id = some o → isConnectPacket o.packet = true) →
+        (e.state = .connected → ∀ o rm, e.ops.lookup id = some o → isAckedPublish o.packet = true → e.settings.map (·.receiveMaximum) = some rm →
+          id ∈ vals e.pendingPub ∨ e.pendingPub.length < rm) →
+        SeatOut e (match (some id : Option Nat) with
+          | none => Seat.ret e1 Res.ok
+          | some id =>
+            let e2 : Engine := { e1 with current := some id }
+            if (e2.op? id).isNone then .cont { e2 with current := none }
+            else
+              let (e3, r) := e2.acquireIdFor id
+              if !r.isOk then .ret e3 r
+              else match e3.op? id with
+                | none => .ret e3 (.panic "unwrap_operation@service_queue_aux")
+                | some o => e3.prepareCurrent id o) := by
+      intro e1 id hok1 hpop hE sv1 hlt hpc hfl
+      simp only []
+      split
+      · rename_i hnone
+        have hn : e1.view.ops.lookup id = none := by
+          have : ({ e1 with current := some id } : Engine).op? id = e1.ops.lookup id := rfl
+          rw [this] at hnone
+          cases hl : e1.ops.lookup id with
+          | none => exact hl
+          | some o => rw [hl] at hnone; simp at hnone
+        have hv : ({ ({ e1 with current := some id } : Engine) with current := none } : Engine).view = e1.view := view_current_none e1 hE.2.2.2.2.1
+        exact ⟨by rw [hv]; exact hpop.drop_untracked hn, sv1.trans (SV.of_frame rfl rfl rfl)⟩
+      · rename_i hsome
+        have sc := seat_core e e1 id hok1 hpop hE hlt hpc hfl
+        have hcomm := acquireIdFor_current_comm e1 (some id) id
+        have fr := acquireIdFor_frame e1 id
+        obtain ⟨o0, ho0⟩ : ∃ o0, e1.op? id = some o0 := by
+          have : ({ e1 with current := some id } : Engine).op? id = e1.op? id := rfl
+          rw [this] at hsome
+          cases hl : e1.op? id with
+          | none => rw [hl] at hsome; simp at hsome
+          | some o => exact ⟨o, rfl⟩
+        have hres := acquireIdFor_result e1 id o0 ho0
+        have sv3 : SV e (({ e1 with current := some id } : Engine).acquireIdFor id).1 := by
+          rw [hcomm]
+          exact sv1.trans (SV.of_frame fr.2.2.2.2.2.1 fr.2.2.2.2.2.2 fr.1)
+        have hok3 : (({ e1 with current := some id } : Engine).acquireIdFor id).1.core.Ok :=
+          ((acquireIdFor_pres { e1 with current := some id } id) hok1).1
+        have hcur3 : (({ e1 with current := some id } : Engine).acquireIdFor id).1.current = some id := by rw [hcomm]
+        have hr2 : (({ e1 with current := some id } : Engine).acquireIdFor id).2 = (e1.acquireIdFor id).2 := by rw [hcomm]
+        have hst3 : (({ e1 with current := some id } : Engine).acquireIdFor id).1.state = e.state := by
+          rw [hcomm]; show (e1.acquireIdFor id).1.state = _; rw [fr.1]; exact hE.2.1
+        generalize ({ e1 with current := some id } : Engine).acquireIdFor id = x3 at sc sv3 hok3 hcur3 hr2 hst3 ⊢
+        obtain ⟨e3, r⟩ := x3
+        simp only [] at sc sv3 hok3 hcur3 hr2 hst3 ⊢
+        split
+        · rename_i hnok
+          refine ⟨⟨sc.2, ?_⟩, sv3⟩
+          intro hne
+          exfalso
+          rw [hr2] at hnok hne
+          rcases hres with a | a
+          · rw [a] at hnok; simp [Res.isOk] at hnok
+          · exact hne _ a
+        · rename_i hisok
+          have hrok : r = .ok := by
+            cases r <;> simp [Res.isOk] at hisok ⊢
+          have h3 := sc.1 hrok
+          cases ho3 : e3.op? id with
+          | none => exact ⟨Outcome.of_big h3, sv3⟩
+          | some o =>
+            simp only []
+            have po := prepareCurrent_out e3 id o hok3 h3 hcur3
+            generalize e3.prepareCurrent id o = sx at po ⊢
+            cases sx with
+            | ret e' r' => exact ⟨po.1, sv3.trans po.2⟩
+            | cont e' => exact ⟨po.1, sv3.trans po.2⟩
+            | encode e' => exact ⟨po.1, sv3.trans po.2.1, po.2.2.trans hst3⟩
+    rcases dequeue_cases e all with ⟨hn, he⟩ | ⟨id, r, hq, hd⟩ | ⟨id, r, hal, hq0, hq, hp, hd⟩ | ⟨id, r, hal, hq0, hq1, hq, hp, hd⟩
+    · generalize e.dequeue all = x at hn he ⊢
+      obtain ⟨e1, nx⟩ := x
+      simp only [] at hn he ⊢
+      subst hn; subst he
+      exact ⟨Outcome.of_big h, SV.refl _⟩
+    · rw [hd]
+      have hin : id ∈ e.view.highQ := by show id ∈ e.highQ; rw [hq]; exact List.mem_cons_self ..
+      refine main { e with highQ := r } id hok ?_ ⟨rfl, rfl, rfl, rfl, hc, rfl⟩ (SV.of_frame rfl rfl rfl)
+        (h.qb.1 id (by simp only [List.mem_append]; exact .inl (.inr hin))) ?_ ?_
+      · show Big [id] [] { e.view with highQ := r }
+        have hsub : ∀ i ∈ r, i ∈ e.view.highQ := fun i hi => by show i ∈ e.highQ; rw [hq]; exact List.mem_cons_of_mem _ hi
+        refine h.setHighQ r ?_ (fun i hi => by cases hi) (fun i hi => h.qb.1 i (by simp only [List.mem_append]; exact .inl (.inr (hsub i hi))))
+          (fun i hi => h.h2 i (hsub i hi)) (fun i hi => h.pr2 i (hsub i hi)) (fun hs i hi => (h.h1 hs).1 i (List.mem_append_left _ (hsub i hi)))
+        intro i hi
+        rw [show e.view.highQ = id :: r from hq] at hi
+        rcases List.mem_cons.mp hi with rfl | a
+        · exact .inr (List.mem_cons_self ..)
+        · exact .inl a
+      · intro hs o ho
+        exact (h.h1 hs).1 id (List.mem_append_left _ hin) o ho
+      · intro hs o rm ho hk _
+        exact .inl (h.pr2 id hin o ho (h.h2 id hin o ho hk))
+    · rw [hd]
+      have hin : id ∈ e.view.resubQ := by show id ∈ e.resubQ; rw [hq]; exact List.mem_cons_self ..
+      have hconn := hall hal
+      refine main { e with resubQ := r } id hok ?_ ⟨rfl, rfl, rfl, rfl, hc, rfl⟩ ⟨List.suffix_refl _, ⟨[id], by rw [hq]; rfl⟩, fun a => a, fun a => a, fun a => a⟩
+        (h.qb.1 id (by simp only [List.mem_append]; exact .inl (.inl (.inr hin)))) ?_ (fun _ => passesRM_flow e id hp)
+      · show Big [id] [] { e.view with resubQ := r }
+        have hsub : ∀ i ∈ r, i ∈ e.view.resubQ := fun i hi => by show i ∈ e.resubQ; rw [hq]; exact List.mem_cons_of_mem _ hi
+        refine h.setResubQ r ?_ (fun i hi => by cases hi) (fun i hi => h.qb.1 i (by simp only [List.mem_append]; exact .inl (.inl (.inr (hsub i hi)))))
+        intro i hi
+        rw [show e.view.resubQ = id :: r from hq] at hi
+        rcases List.mem_cons.mp hi with rfl | a
+        · exact .inr (List.mem_cons_self ..)
+        · exact .inl a
+      · intro hs; rw [hconn] at hs; cases hs
+    · rw [hd]
+      have hin : id ∈ e.view.userQ := by show id ∈ e.userQ; rw [hq]; exact List.mem_cons_self ..
+      have hconn := hall hal
+      refine main { e with userQ := r } id hok ?_ ⟨rfl, rfl, rfl, rfl, hc, rfl⟩ ⟨⟨[id], by rw [hq]; rfl⟩, List.suffix_refl _, fun a => a, fun a => a, fun a => a⟩
+        (h.qb.1 id (by simp only [List.mem_append]; exact .inl (.inl (.inl hin)))) ?_ (fun _ => passesRM_flow e id hp)
+      · show Big [id] [] { e.view with userQ := r }
+        have hsub : ∀ i ∈ r, i ∈ e.view.userQ := fun i hi => by show i ∈ e.userQ; rw [hq]; exact List.mem_cons_of_mem _ hi
+        refine h.setUserQ r ?_ (fun i hi => by cases hi) (fun i hi => h.qb.1 i (by simp only [List.mem_append]; exact .inl (.inl (.inl (hsub i hi)))))
+        intro i hi
+        rw [show e.view.userQ = id :: r from hq] at hi
+        rcases List.mem_cons.mp hi with rfl | a
+        · exact .inr (List.mem_cons_self ..)
+        · exact .inl a
+      · intro hs; rw [hconn] at hs; cases hs
+
+/-! ### service: a completely written operation is filed -/
+
+theorem mapInsert_length {β} (m : List (Nat × β)) (hs : KeysSorted m) (k : Nat) (v : β) :
+    (mapInsert m k v).length = if (m.lookup k).isSome then m.length else m.length + 1 := by
+  cases hl : m.lookup k with
+  | none =>
+    have := (mapInsert_perm_of_none v hl).length_eq
+    simp only [List.length_cons] at this
+    simpa using this
+  | some v0 =>
+    have h1 := (mapInsert_perm_of_some hs v hl).length_eq
+    have h2 := (perm_cons_mapErase hs hl).length_eq
+    simp only [List.length_cons] at h1 h2
+    simp only [Option.isSome_some, ↓reduceIte]
+    omega
+
+theorem mem_vals_mapInsert {m : List (Nat × Nat)} (hs : KeysSorted m) {k v : Nat} :
+    v ∈ vals (mapInsert m k v) ∧ ∀ w, w ∈ vals m → (∀ q, m.lookup q = some w → q = k → w = v) → w ∈ vals (mapInsert m k v) := by
+  refine ⟨mem_vals_of_lookup (lookup_mapInsert_self _ _ _), ?_⟩
+  intro w hw huniq
+  obtain ⟨q, hq⟩ := lookup_of_mem_vals hs hw
+  by_cases hqk : q = k
+  · have := huniq q hq hqk
+    subst this
+    exact mem_vals_of_lookup (lookup_mapInsert_self _ _ _)
+  · exact mem_vals_of_lookup (by rw [lookup_mapInsert_ne _ _ _ _ hqk]; exact hq)
+
+/-- a completely written QoS 1/2 publish (or its PUBREL) joins the pending-publish table under its packet id -/
+theorem Big.insertPendingPub {S : List Nat} {v : View} (h : Big S [] v) {id pid : Nat} {o : Op} (ho : v.ops.lookup id = some o)
+    (hp : o.packetId = some pid) (hk : isAckedPublish o.packet = true) (hnpc : v.state ≠ .pendingConnack)
+    (hcur : v.current = some id) :
+    Big S [] { v with pendingPub := mapInsert v.pendingPub pid id } := by
+  -- whoever sits under `pid` already is this very operation
+  have huniq : ∀ w q, v.pendingPub.lookup q = some w → q = pid → w = id := by
+    intro w q hq hqp
+    subst hqp
+    obtain ⟨x, hx, hpx, _⟩ := h.tp q w hq
+    rcases h.p3 w x q hx hpx with a | a
+    · rcases h.p3 id o q ho hp with b | b
+      · rw [a] at b; cases b; rfl
+      · cases b.1
+    · cases a.1
+  have hmono : ∀ w, w ∈ vals v.pendingPub → w ∈ vals (mapInsert v.pendingPub pid id) :=
+    fun w hw => (mem_vals_mapInsert h.tps).2 w hw (fun q hq hqp => huniq w q hq hqp)
+  have hself : id ∈ vals (mapInsert v.pendingPub pid id) := (mem_vals_mapInsert h.tps).1
+  have hl : ∀ i x, v.ops.lookup i = some x → ({ v with pendingPub := mapInsert v.pendingPub pid id } : View).Located i ∨ i ∈ S := by
+    intro i x hx
+    rcases h.loc i x hx with a | a
+    · left
+      rcases a with a | a | a | a | a | a | a
+      · exact .inl a
+      · exact .inr (.inl a)
+      · exact .inr (.inr (.inl a))
+      · exact .inr (.inr (.inr (.inl a)))
+      · exact .inr (.inr (.inr (.inr (.inl a))))
+      · exact .inr (.inr (.inr (.inr (.inr (.inl (hmono i a))))))
+      · exact .inr (.inr (.inr (.inr (.inr (.inr a)))))
+    · exact .inr a
+  exact { h with
+    tps := h.tps.mapInsert _ _
+    tp := fun q w hq => by
+      have hq' : (mapInsert v.pendingPub pid id).lookup q = some w := hq
+      rw [lookup_mapInsert] at hq'
+      split at hq'
+      · rename_i hqq; cases hq'; subst hqq; exact ⟨o, ho, hp, hk⟩
+      · exact h.tp q w hq'
+    loc := hl
+    p3 := fun i x q hx hpx => (h.p3 i x q hx hpx).elim .inl (fun a => by cases a.1)
+    pr := fun i x hx hpr => (h.pr i x hx hpr).elim .inl (fun a => a.elim (fun b => .inr (.inl (hmono i b))) (fun b => .inr (.inr b)))
+    pr2 := fun i hi x hx hpr => hmono i (h.pr2 i hi x hx hpr)
+    h1 := fun hs => absurd hs hnpc
+    f := fun hs => by
+      obtain ⟨rm, hrm, hlen, hc⟩ := h.f hs
+      refine ⟨rm, hrm, ?_, fun i hi x hx hkx => .inl ?_⟩
+      · show (mapInsert v.pendingPub pid id).length ≤ rm
+        rw [mapInsert_length _ h.tps]
+        split
+        · exact hlen
+        · rename_i hnone
+          rcases hc id hcur o ho hk with a | a
+          · exfalso
+            obtain ⟨q, hq⟩ := lookup_of_mem_vals h.tps a
+            obtain ⟨x, hx, hpx, _⟩ := h.tp q id hq
+            rw [ho] at hx; cases hx
+            rw [hp] at hpx; cases hpx
+            rw [hq] at hnone; exact hnone rfl
+          · omega
+      · have : i = id := by rw [hcur] at hi; cases hi; rfl
+        rw [this]; exact hself }
+
+theorem Big.insertPendingNonPub {S : List Nat} {v : View} (h : Big S [] v) {id pid : Nat} {o : Op} (ho : v.ops.lookup id = some o)
+    (hp : o.packetId = some pid) (hk : isSubOrUnsub o.packet = true) (hnpc : v.state ≠ .pendingConnack) :
+    Big S [] { v with pendingNonPub := mapInsert v.pendingNonPub pid id } := by
+  have huniq : ∀ w q, v.pendingNonPub.lookup q = some w → q = pid → w = id := by
+    intro w q hq hqp
+    subst hqp
+    obtain ⟨x, hx, hpx, _⟩ := h.tn q w hq
+    rcases h.p3 w x q hx hpx with a | a
+    · rcases h.p3 id o q ho hp with b | b
+      · rw [a] at b; cases b; rfl
+      · cases b.1
+    · cases a.1
+  have hmono : ∀ w, w ∈ vals v.pendingNonPub → w ∈ vals (mapInsert v.pendingNonPub pid id) :=
+    fun w hw => (mem_vals_mapInsert h.tns).2 w hw (fun q hq hqp => huniq w q hq hqp)
+  have hl : ∀ i x, v.ops.lookup i = some x → ({ v with pendingNonPub := mapInsert v.pendingNonPub pid id } : View).Located i ∨ i ∈ S := by
+    intro i x hx
+    rcases h.loc i x hx with a | a
+    · left
+      rcases a with a | a | a | a | a | a | a
+      · exact .inl a
+      · exact .inr (.inl a)
+      · exact .inr (.inr (.inl a))
+      · exact .inr (.inr (.inr (.inl a)))
+      · exact .inr (.inr (.inr (.inr (.inl a))))
+      · exact .inr (.inr (.inr (.inr (.inr (.inl a)))))
+      · exact .inr (.inr (.inr (.inr (.inr (.inr (hmono i a))))))
+    · exact .inr a
+  exact { h with
+    tns := h.tns.mapInsert _ _
+    tn := fun q w hq => by
+      have hq' : (mapInsert v.pendingNonPub pid id).lookup q = some w := hq
+      rw [lookup_mapInsert] at hq'
+      split at hq'
+      · rename_i hqq; cases hq'; subst hqq; exact ⟨o, ho, hp, hk⟩
+      · exact h.tn q w hq'
+    loc := hl
+    p3 := fun i x q hx hpx => (h.p3 i x q hx hpx).elim .inl (fun a => by cases a.1)
+    h1 := fun hs => absurd hs hnpc }
+
+theorem Big.pushWC {S : List Nat} {v : View} (h : Big S [] v) {id : Nat} {o : Op} (ho : v.ops.lookup id = some o)
+    (hn : needsPacketId o.packet = false) (hcur : v.current = some id) : Big S [] { v with pendingWC := v.pendingWC ++ [id] } := by
+  refine h.setPendingWC (v.pendingWC ++ [id]) (fun i hi => .inl (List.mem_append_left _ hi)) (fun i hi => .inr hi) ?_ ?_ ?_
+  · intro i hi
+    rcases List.mem_append.mp hi with a | a
+    · exact h.qb.1 i (List.mem_append_right _ a)
+    · rw [List.mem_singleton.mp a]; exact h.qb.2 id hcur
+  · intro i hi x hx
+    rcases List.mem_append.mp hi with a | a
+    · exact h.wc i a x hx
+    · rw [List.mem_singleton.mp a] at hx; rw [ho] at hx; cases hx; exact hn
+  · intro hs i hi x hx
+    rcases List.mem_append.mp hi with a | a
+    · exact (h.h1 hs).1 i (List.mem_append_right _ a) x hx
+    · rw [List.mem_singleton.mp a] at hx
+      exact (h.h1 hs).2.1 id hcur x hx
+
+/-- `on_current_operation_fully_written`, the filing step -/
+theorem fileWritten_big (e : Engine) (id : Nat) (o : Op) (h : Big [] [] e.view) (ho : e.ops.lookup id = some o) (hc : e.current = some id)
+    (hst : e.state = .connected ∨ e.state = .pendingConnack) :
+    Big [] [] (e.fileWritten id o).view ∧
+    (id ∈ (e.fileWritten id o).pendingWC ∨ id ∈ vals (e.fileWritten id o).pendingPub ∨ id ∈ vals (e.fileWritten id o).pendingNonPub) ∧ SV e (e.fileWritten id o) ∧
+    (e.fileWritten id o).ops = e.ops ∧ (e.fileWritten id o).current = e.current ∧
+    ((e.fileWritten id o).state = .pendingConnack → e.state = .pendingConnack) := by
+  have ho' : e.view.ops.lookup id = some o := ho
+  have hc' : e.view.current = some id := hc
+  -- a packet that needs an id is written only while Connected, and carries its id
+  have hneed : needsPacketId o.packet = true → e.state = .connected ∧ o.packetId = some (pktPid o.packet) := by
+    intro hn
+    have hconn : e.state = .connected := by
+      rcases hst with a | a
+      · exact a
+      · have := (connect_class _ ((h.h1 a).2.1 id hc' o ho')).2
+        rw [this] at hn; cases hn
+    refine ⟨hconn, ?_⟩
+    have hs := h.c1 hconn id hc' o ho' hn
+    obtain ⟨pid, hpid⟩ := Option.isSome_iff_exists.mp hs
+    rw [hpid, h.p4 id o pid ho' hpid]
+  have hpw : needsPacketId o.packet = false → Big [] [] ({ e with pendingWC := e.pendingWC ++ [id] } : Engine).view ∧
+      id ∈ ({ e with pendingWC := e.pendingWC ++ [id] } : Engine).pendingWC := by
+    intro hn
+    exact ⟨h.pushWC ho' hn hc', List.mem_append_right _ (List.mem_singleton.mpr rfl)⟩
+  unfold Engine.fileWritten
+  cases hp : o.packet with
+  | subscribe s =>
+    simp only []
+    obtain ⟨hconn, hpid⟩ := hneed (by rw [hp]; rfl)
+    rw [hp] at hpid
+    refine ⟨h.insertPendingNonPub ho' hpid (by rw [hp]; rfl) (by show e.state ≠ _; rw [hconn]; decide), ?_, SV.of_frame rfl rfl rfl, (by first | rfl | trivial), (by first | rfl | trivial), fun a => a⟩
+    exact .inr (.inr (mem_vals_mapInsert h.tns).1)
+  | unsubscribe s =>
+    simp only []
+    obtain ⟨hconn, hpid⟩ := hneed (by rw [hp]; rfl)
+    rw [hp] at hpid
+    refine ⟨h.insertPendingNonPub ho' hpid (by rw [hp]; rfl) (by show e.state ≠ _; rw [hconn]; decide), ?_, SV.of_frame rfl rfl rfl, (by first | rfl | trivial), (by first | rfl | trivial), fun a => a⟩
+    exact .inr (.inr (mem_vals_mapInsert h.tns).1)
+  | publish p =>
+    simp only []
+    split
+    · rename_i hq0
+      have := hpw (by rw [hp]; simp [needsPacketId, hq0])
+      exact ⟨this.1, .inl this.2, SV.of_frame rfl rfl rfl, (by first | rfl | trivial), (by first | rfl | trivial), fun a => a⟩
+    · rename_i hq0
+      have hk : isAckedPublish o.packet = true := by rw [hp]; simp [isAckedPublish, hq0]
+      obtain ⟨hconn, hpid⟩ := hneed (by rw [hp]; simp [needsPacketId, hq0])
+      rw [hp] at hpid
+      refine ⟨h.insertPendingPub ho' hpid hk (by show e.state ≠ _; rw [hconn]; decide) hc', ?_, SV.of_frame rfl rfl rfl, (by first | rfl | trivial), (by first | rfl | trivial), fun a => a⟩
+      exact .inr (.inl (mem_vals_mapInsert h.tps).1)
+  | disconnect d =>
+    simp only []
+    have := hpw (by rw [hp]; rfl)
+    refine ⟨?_, ?_, ⟨List.suffix_refl _, List.suffix_refl _, (fun _ hh => by cases hh), (fun hh => by cases hh), (fun hh => by cases hh)⟩, (by first | rfl | trivial), (by first | rfl | trivial), (fun hh => by cases hh)⟩
+    · show Big [] [] { ({ e with pendingWC := e.pendingWC ++ [id] } : Engine).view with state := .pendingDisconnect }
+      exact this.1.setState .pendingDisconnect (fun hh => by cases hh) (fun hh => by cases hh) (fun hh => by cases hh)
+    · exact .inl (List.mem_append_right _ (List.mem_singleton.mpr rfl))
+  | connect c => simp only []; have := hpw (by rw [hp]; rfl); exact ⟨this.1, .inl this.2, SV.of_frame rfl rfl rfl, (by first | rfl | trivial), (by first | rfl | trivial), fun a => a⟩
+  | connack c => simp only []; have := hpw (by rw [hp]; rfl); exact ⟨this.1, .inl this.2, SV.of_frame rfl rfl rfl, (by first | rfl | trivial), (by first | rfl | trivial), fun a => a⟩
+  | puback c => simp only []; have := hpw (by rw [hp]; rfl); exact ⟨this.1, .inl this.2, SV.of_frame rfl rfl rfl, (by first | rfl | trivial), (by first | rfl | trivial), fun a => a⟩
+  | pubrec c => simp only []; have := hpw (by rw [hp]; rfl); exact ⟨this.1, .inl this.2, SV.of_frame rfl rfl rfl, (by first | rfl | trivial), (by first | rfl | trivial), fun a => a⟩
+  | pubrel c => simp only []; have := hpw (by rw [hp]; rfl); exact ⟨this.1, .inl this.2, SV.of_frame rfl rfl rfl, (by first | rfl | trivial), (by first | rfl | trivial), fun a => a⟩
+  | pubcomp c => simp only []; have := hpw (by rw [hp]; rfl); exact ⟨this.1, .inl this.2, SV.of_frame rfl rfl rfl, (by first | rfl | trivial), (by first | rfl | trivial), fun a => a⟩
+  | suback c => simp only []; have := hpw (by rw [hp]; rfl); exact ⟨this.1, .inl this.2, SV.of_frame rfl rfl rfl, (by first | rfl | trivial), (by first | rfl | trivial), fun a => a⟩
+  | unsuback c => simp only []; have := hpw (by rw [hp]; rfl); exact ⟨this.1, .inl this.2, SV.of_frame rfl rfl rfl, (by first | rfl | trivial), (by first | rfl | trivial), fun a => a⟩
+  | pingreq => simp only []; have := hpw (by rw [hp]; rfl); exact ⟨this.1, .inl this.2, SV.of_frame rfl rfl rfl, (by first | rfl | trivial), (by first | rfl | trivial), fun a => a⟩
+  | pingresp => simp only []; have := hpw (by rw [hp]; rfl); exact ⟨this.1, .inl this.2, SV.of_frame rfl rfl rfl, (by first | rfl | trivial), (by first | rfl | trivial), fun a => a⟩
+  | auth c => simp only []; have := hpw (by rw [hp]; rfl); exact ⟨this.1, .inl this.2, SV.of_frame rfl rfl rfl, (by first | rfl | trivial), (by first | rfl | trivial), fun a => a⟩
+
+theorem Big.setNoTimeouts {S U : List Nat} {v : View} (h : Big S U v) (b : Bool) (hb : v.state = .pendingConnack → b = true) :
+    Big S U { v with noTimeouts := b } := by
+  have hh : v.state = .pendingConnack →
+      (∀ id ∈ v.highQ ++ v.pendingWC, ∀ o, v.ops.lookup id = some o → isConnectPacket o.packet = true) ∧
+      (∀ id, v.current = some id → ∀ o, v.ops.lookup id = some o → isConnectPacket o.packet = true) ∧
+      v.pendingPub = [] ∧ v.pendingNonPub = [] ∧ b = true := by
+    intro hs
+    obtain ⟨a, c, d, e, _⟩ := h.h1 hs
+    exact ⟨a, c, d, e, hb hs⟩
+  exact { h with h1 := hh }
+
+theorem connect_not_userKind (p : Packet) (h : isConnectPacket p = true) : isUserKind p = false := by
+  cases p <;> simp [isConnectPacket] at h <;> rfl
+
+/-- `on_current_operation_fully_written` -/
+theorem onFullyWritten_out (e e3 : Engine) (hw : e.onFullyWritten = some e3) (hok : e.core.Ok) (h : Big [] [] e.view)
+    (hst : e.state = .connected ∨ e.state = .pendingConnack) : Big [] [] e3.view ∧ SV e e3 := by
+  unfold Engine.onFullyWritten at hw
+  cases hc : e.current with
+  | none => rw [hc] at hw; cases hw
+  | some id =>
+    rw [hc] at hw
+    simp only [] at hw
+    cases ho : e.op? id with
+    | none => rw [ho] at hw; cases hw
+    | some o =>
+      rw [ho] at hw
+      simp only [Option.some.injEq] at hw
+      have hid := hok.id_eq (show e.core.ops.lookup id = some o from ho)
+      subst hid
+      obtain ⟨h1, hloc, sv1, hops, hcur1, hpc1⟩ := fileWritten_big e o.id o h ho hc hst
+      generalize e.fileWritten o.id o = e1 at hw h1 hloc sv1 hops hcur1 hpc1
+      -- the ping base is recorded on the operation
+      have ho1 : e1.view.ops.lookup o.id = some o := by show e1.ops.lookup o.id = _; rw [hops]; exact ho
+      have h2 : Big [] [] (e1.setOp { o with pingBase := some e.now }).view := by
+        rw [setOp_view]
+        have := h1.replace (o' := { o with pingBase := some e.now }) ho1 rfl rfl rfl rfl rfl rfl
+          (fun hp => h1.pr o.id o ho1 hp) (fun hi hk => h1.h2 o.id hi o ho1 hk) (fun hi hp => h1.pr2 o.id hi o ho1 hp)
+        exact this
+      have hlook2 : (e1.setOp { o with pingBase := some e.now }).ops.lookup o.id = some { o with pingBase := some e.now } := by
+        simp only [Engine.setOp]
+        exact lookup_mapInsert_self _ _ _
+      -- the ack timeout, if the operation has one
+      have h3 : Big [] [] ((e1.setOp { o with pingBase := some e.now }).startAckTimeout o.id).view := by
+        unfold Engine.startAckTimeout
+        rw [show (e1.setOp { o with pingBase := some e.now }).op? o.id = some { o with pingBase := some e.now } from hlook2]
+        simp only [Option.bind_some]
+        cases hu : o.user.bind (·.2) with
+        | none => exact h2
+        | some t =>
+          simp only []
+          show Big [] [] { (e1.setOp { o with pingBase := some e.now }).view with noTimeouts := ((e1.setOp { o with pingBase := some e.now }).timeouts ++ [(o.id, (e1.setOp { o with pingBase := some e.now }).now + t)]).isEmpty }
+          refine h2.setNoTimeouts _ ?_
+          intro hs
+          exfalso
+          have hs1 : e1.state = .pendingConnack := hs
+          have hse := hpc1 hs1
+          have hconn := (h.h1 hse).2.1 o.id hc o ho
+          have huk := hok.userKind _ (mem_of_lookup (show e.core.ops.lookup o.id = some o from ho))
+          cases hou : o.user with
+          | none => rw [hou] at hu; cases hu
+          | some u =>
+            have := huk (by rw [hou]; rfl)
+            rw [connect_not_userKind _ hconn] at this; cases this
+      have hfr : ((e1.setOp { o with pingBase := some e.now }).startAckTimeout o.id).view.current = some o.id ∧
+          SV e1 ((e1.setOp { o with pingBase := some e.now }).startAckTimeout o.id) ∧
+          (o.id ∈ ((e1.setOp { o with pingBase := some e.now }).startAckTimeout o.id).pendingWC ∨
+           o.id ∈ vals ((e1.setOp { o with pingBase := some e.now }).startAckTimeout o.id).pendingPub ∨
+           o.id ∈ vals ((e1.setOp { o with pingBase := some e.now }).startAckTimeout o.id).pendingNonPub) := by
+        unfold Engine.startAckTimeout
+        split
+        · exact ⟨by show e1.current = _; rw [hcur1]; exact hc, SV.of_frame rfl rfl rfl, hloc⟩
+        · exact ⟨by show e1.current = _; rw [hcur1]; exact hc, SV.of_frame rfl rfl rfl, hloc⟩
+      subst hw
+      generalize (e1.setOp { o with pingBase := some e.now }).startAckTimeout o.id = e2' at h3 hfr ⊢
+      refine ⟨?_, sv1.trans (hfr.2.1.trans (SV.of_frame rfl rfl rfl))⟩
+      have hcl := h3.clearCurrent o.id hfr.1
+      refine hcl.drop_located ?_
+      rcases hfr.2.2 with a | a | a
+      · exact .inr (.inr (.inr (.inr (.inl a))))
+      · exact .inr (.inr (.inr (.inr (.inr (.inl a)))))
+      · exact .inr (.inr (.inr (.inr (.inr (.inr a)))))
+
+/-! ### service: the loop -/
+
+theorem serviceQueueAux_out (all : Bool) (cap : Nat) : ∀ (fuel : Nat) (e : Engine), e.core.Ok → Big [] [] e.view →
+    (all = true → e.state ≠ .pendingConnack) →
+    Outcome (Engine.serviceQueueAux all cap fuel e) ∧ SV e (Engine.serviceQueueAux all cap fuel e).1 := by
+  intro fuel
+  induction fuel with
+  | zero => intro e _ h _; exact ⟨Outcome.of_big h, SV.refl e⟩
+  | succ f ih =>
+    intro e hok h hall
+    unfold Engine.serviceQueueAux
+    split
+    · exact ⟨Outcome.of_big h, SV.refl e⟩
+    · rename_i hrun
+      have hst : e.state = .connected ∨ e.state = .pendingConnack := by
+        cases hs : e.state <;> simp [hs] at hrun
+        · exact .inr rfl
+        · exact .inl rfl
+      have hall' : all = true → e.state = .connected := by
+        intro ha
+        rcases hst with a | a
+        · exact a
+        · exact absurd a (hall ha)
+      have so := seatCurrent_out e all hok h hall'
+      have sp := seatCurrent_pres e all
+      cases hseat : e.seatCurrent all with
+      | ret e1 r => rw [hseat] at so; exact so
+      | cont e1 =>
+        rw [hseat] at so sp
+        have r := ih e1 (sp hok).1 so.1 (fun ha hpc => hall ha (so.2.pc hpc))
+        exact ⟨r.1, so.2.trans r.2⟩
+      | encode e1 =>
+        rw [hseat] at so sp
+        simp only []
+        have hok1 : e1.core.Ok := (sp hok).1
+        have h1 : Big [] [] e1.view := so.1
+        have sv1 : SV e e1 := so.2.1
+        have hste1 : e1.state = e.state := so.2.2
+        cases hc : e1.current with
+        | none => exact ⟨Outcome.of_big h1, sv1⟩
+        | some id =>
+          simp only []
+          split
+          · exact ⟨Outcome.of_big h1, sv1⟩
+          · split
+            · exact ⟨Outcome.of_big h1, sv1⟩
+            · have h2 : Big [] [] (e1.encodeCurrent cap).1.view := h1
+              have hok2 : (e1.encodeCurrent cap).1.core.Ok := hok1
+              have sv2 : SV e (e1.encodeCurrent cap).1 := sv1.trans (SV.of_frame rfl rfl rfl)
+              have hst2 : (e1.encodeCurrent cap).1.state = e1.state := rfl
+              generalize e1.encodeCurrent cap = y at h2 hok2 sv2 hst2 ⊢
+              obtain ⟨e2, failed⟩ := y
+              simp only [] at h2 hok2 sv2 hst2 ⊢
+              split
+              · exact ⟨Outcome.of_big h2, sv2⟩
+              · split
+                · cases hw : e2.onFullyWritten with
+                  | none => exact ⟨Outcome.of_big h2, sv2⟩
+                  | some e3 =>
+                    simp only []
+                    -- the loop is still running: the state seen by the filing step is the one the loop head checked
+                    by_cases hrun2 : e2.state = .connected ∨ e2.state = .pendingConnack
+                    · have ow := onFullyWritten_out e2 e3 hw hok2 h2 hrun2
+                      have hok3 : e3.core.Ok := (onFullyWritten_pres e2 e3 hw hok2).1
+                      have r := ih e3 hok3 ow.1 (fun ha hpc => hall ha (sv2.pc (ow.2.pc hpc)))
+                      exact ⟨r.1, (sv2.trans ow.2).trans r.2⟩
+                    · -- not reachable (the seat keeps the state), but harmless: the loop stops at its next head
+                      exfalso
+                      apply hrun2
+                      rw [hst2, hste1]
+                      exact hst
+                · exact ⟨Outcome.of_big h2, sv2⟩
+
+theorem serviceQueue_out (e : Engine) (all : Bool) (cap prefill : Nat) (hok : e.core.Ok) (h : Big [] [] e.view)
+    (hall : all = true → e.state ≠ .pendingConnack) :
+    Outcome (e.serviceQueue all cap prefill) ∧ SV e (e.serviceQueue all cap prefill).1 := by
+  unfold Engine.serviceQueue
+  simp only []
+  have r := serviceQueueAux_out all cap (2 * (e.highQ.length + e.resubQ.length + e.userQ.length) + 4)
+    { e with outBytes := List.replicate (min prefill cap) 0 } hok h hall
+  generalize Engine.serviceQueueAux all cap (2 * (e.highQ.length + e.resubQ.length + e.userQ.length) + 4)
+    { e with outBytes := List.replicate (min prefill cap) 0 } = x at r ⊢
+  obtain ⟨e1, rr⟩ := x
+  have a : SV e { e with outBytes := List.replicate (min prefill cap) 0 } := SV.of_frame rfl rfl rfl
+  have b : SV e1 { e1 with outBytes := e1.outBytes.drop (min prefill cap), pendingWrite := if (e1.outBytes.drop (min prefill cap)).isEmpty then e1.pendingWrite else true } :=
+    SV.of_frame rfl rfl rfl
+  exact ⟨⟨r.1.1, r.1.2⟩, a.trans (r.2.trans b)⟩
+
+theorem serviceKeepAlive_hk (e : Engine) (hst : e.state ≠ .pendingConnack) : HK e e.serviceKeepAlive.1 := by
+  unfold Engine.serviceKeepAlive
+  split
+  · split <;> exact HK.refl _
+  · split
+    · split
+      · simp only []
+        have hk := createEnqueueHigh_hk e .pingreq true rfl hst
+        cases henq : (e.createOp .pingreq none).1.enqueue (e.createOp .pingreq none).2 .high true with
+        | none => rw [henq] at hk; exact hk
+        | some e2 =>
+          rw [henq] at hk
+          simp only [] at hk ⊢
+          cases hs : e2.settings with
+          | none => exact hk
+          | some st =>
+            simp only []
+            split
+            · exact hk.trans (HK.of_eq rfl (by simp [Engine.view, hs]))
+            · exact hk.trans (HK.of_eq rfl (by simp [Engine.view, hs]))
+      · exact HK.refl _
+    · exact HK.refl _
+
+theorem processAckTimeouts_hk : ∀ (fuel : Nat) (e : Engine), HK e (Engine.processAckTimeouts fuel e).1 := by
+  intro fuel
+  induction fuel with
+  | zero => intro e; exact HK.refl _
+  | succ f ih =>
+    intro e
+    unfold Engine.processAckTimeouts
+    cases hn : e.nextDueTimeout with
+    | none => exact HK.refl _
+    | some x =>
+      obtain ⟨id, deadline⟩ := x
+      simp only []
+      split
+      · have h1 : HK e { e with timeouts := e.timeouts.erase (id, deadline) } := by
+          refine ⟨⟨Pres.of_core_eq rfl, ?_⟩, ⟨rfl, rfl, .inl rfl⟩⟩
+          intro _ h
+          show Big [] [] { e.view with noTimeouts := (e.timeouts.erase (id, deadline)).isEmpty }
+          refine h.setNoTimeouts _ ?_
+          intro hs
+          have hnt := (h.h1 hs).2.2.2.2
+          have : e.timeouts = [] := by
+            have : e.timeouts.isEmpty = true := hnt
+            exact List.isEmpty_iff.mp this
+          rw [this]; rfl
+        have h2 := h1.trans (completeFailure_hk { e with timeouts := e.timeouts.erase (id, deadline) } id "AckTimeout")
+        generalize ({ e with timeouts := e.timeouts.erase (id, deadline) } : Engine).completeFailure id "AckTimeout" = y at h2 ⊢
+        obtain ⟨e2, r⟩ := y
+        simp only [] at h2 ⊢
+        exact h2.trans (ih e2)
+      · exact HK.refl _
+
+theorem HK.sv {e e' : Engine} (h : HK e e') : SV e e' := SV.of_qv h.qv
+
+/-- `service`, the work by state -/
+theorem serviceCore_out (e : Engine) (cap prefill : Nat) (hok : e.core.Ok) (h : Big [] [] e.view) :
+    Outcome (e.serviceCore cap prefill) ∧ SV e (e.serviceCore cap prefill).1 := by
+  unfold Engine.serviceCore
+  cases hst : e.state with
+  | disconnected => exact ⟨Outcome.of_big h, SV.refl e⟩
+  | halted => exact ⟨Outcome.of_big h, SV.refl e⟩
+  | pendingDisconnect =>
+    simp only []
+    have hk := processAckTimeouts_hk (e.timeouts.length + 1) e
+    exact ⟨Outcome.of_big (hk.stp.keeps hok h), hk.sv⟩
+  | pendingConnack =>
+    simp only []
+    cases hcd : e.connackDeadline with
+    | none => exact ⟨Outcome.of_big h, SV.refl e⟩
+    | some d =>
+      simp only []
+      split
+      · exact ⟨Outcome.of_big h, SV.refl e⟩
+      · exact serviceQueue_out e false cap prefill hok h (fun hh => by cases hh)
+  | connected =>
+    simp only []
+    have hka := serviceKeepAlive_hk e (by rw [hst]; decide)
+    have hoka := (hka.stp.pres hok).1
+    have ha := hka.stp.keeps hok h
+    have sva := hka.sv
+    generalize e.serviceKeepAlive = xa at hka hoka ha sva ⊢
+    obtain ⟨ea, ra⟩ := xa
+    simp only [] at hoka ha sva ⊢
+    split
+    · exact ⟨Outcome.of_big ha, sva⟩
+    · have hsta : ea.state ≠ .pendingConnack := fun hh => by
+        have := sva.pc hh; rw [hst] at this; cases this
+      have rb := serviceQueue_out ea true cap prefill hoka ha (fun _ => hsta)
+      have hokb := (serviceQueue_pres ea true cap prefill hoka).1
+      generalize ea.serviceQueue true cap prefill = xb at rb hokb ⊢
+      obtain ⟨eb, rbr⟩ := xb
+      simp only [] at rb hokb ⊢
+      split
+      · exact ⟨rb.1, sva.trans rb.2⟩
+      · rename_i hrbok
+        have hbok : rbr = .ok := by cases rbr <;> simp [Res.isOk] at hrbok ⊢
+        have hb := rb.1.2 (fun k hk => by rw [hbok] at hk; cases hk)
+        have hkc := processAckTimeouts_hk (eb.timeouts.length + 1) eb
+        exact ⟨Outcome.of_big (hkc.stp.keeps hokb hb), (sva.trans rb.2).trans hkc.sv⟩
+
+/-- **`service` keeps the invariant**, for every buffer size and clock value -/
+theorem service_inv (e : Engine) (cap prefill : Nat) (hinv : Inv e) : Inv (e.service cap prefill).1 := by
+  obtain ⟨hok, h, hD, hS⟩ := hinv
+  have hokc := (serviceCore_pres e cap prefill hok).1
+  have oc := serviceCore_out e cap prefill hok h
+  have hsame : e.state = .disconnected → (e.serviceCore cap prefill) = (e, .ok) := by
+    intro hd; unfold Engine.serviceCore; rw [hd]
+  unfold Engine.service
+  by_cases hdis : e.state = .disconnected
+  · rw [hsame hdis]; exact ⟨hok, h, hD, hS⟩
+  · generalize e.serviceCore cap prefill = x at hokc oc ⊢
+    obtain ⟨e1, r⟩ := x
+    simp only [] at hokc oc ⊢
+    have keep : (∀ k, r ≠ .err k) → Inv e1 := by
+      intro hne
+      refine ⟨hokc, oc.1.2 hne, fun hd => absurd hd (oc.2.nd hdis), ?_⟩
+      intro hc
+      have := hS (oc.2.conn hc)
+      exact ⟨sortedNat_suffix oc.2.sufU this.1, sortedNat_suffix oc.2.sufR this.2⟩
+    split
+    · exact keep (fun k hk => by cases hk)
+    · exact keep (fun k hk => by cases hk)
+    · exact ⟨((Pres.refl e1).halt hokc).1, oc.1.1, (fun hd => by cases hd), (fun hd => by cases hd)⟩
+
+/-! ### the remaining entry points, at the level of the whole invariant -/
+
+theorem D1_iff (e : Engine) : D1 e.view ↔ (e.state = .disconnected → Quiet e ∧ e.pendingPub = [] ∧ e.pendingNonPub = []) := by
+  constructor
+  · intro h hd
+    obtain ⟨a, b, c, d, f, g⟩ := h hd
+    exact ⟨⟨a, b, f, List.isEmpty_iff.mp g⟩, c, d⟩
+  · intro h hd
+    obtain ⟨q, c, d⟩ := h hd
+    exact ⟨q.current, q.highQ, c, d, q.pendingWC, by show e.timeouts.isEmpty = true; rw [q.timeouts]; rfl⟩
+
+theorem submit_inv (e : Engine) (p : Packet) (user : Option (Nat × Option Nat)) (q : QueueKind) (front : Bool)
+    (hk : user.isSome = true → isUserKind p = true)
+    (hq : (q = .user ∧ front = false) ∨ (q = .high ∧ (∃ d, p = .disconnect d))) (hinv : Inv e) :
+    Inv (e.submit p user q front).1 := by
+  obtain ⟨hok, h, hD, hS⟩ := hinv
+  obtain ⟨hpa, hkeep⟩ := submit_stp (S := []) (U := []) e p user q front hk hq
+  refine ⟨hpa.core hok, hkeep hok h, ?_, ?_⟩
+  all_goals
+    obtain ⟨f1, f2, f3, f4, f5, f6⟩ := createOp_fields e p user
+    have hop : ((e.createOp p user).1.op? e.nextOpId).isNone = false := by simp only [Engine.op?, f6]; rfl
+  · -- a Disconnected engine stays clean
+    rw [D1_iff] at hD ⊢
+    unfold Engine.submit
+    simp only []
+    split
+    · rename_i hpol
+      rw [f1]
+      intro hd
+      have hse : e.state = .disconnected := by
+        by_cases hh : e.state = .disconnected
+        · exact hh
+        · exfalso
+          have hk' := completeFailure_hk (e.createOp p user).1 e.nextOpId "OfflineQueuePolicyFailed"
+          have := hk'.sv.nd (by rw [f5]; exact hh)
+          exact this hd
+      obtain ⟨qq, c, d⟩ := hD hse
+      have q1 : Quiet (e.createOp p user).1 := ⟨qq.current, by rw [f4]; exact qq.highQ, qq.pendingWC, qq.timeouts⟩
+      exact ⟨completeFailure_quiet _ _ _ q1, (completeFailure_tables _ _ _).1 c, (completeFailure_tables _ _ _).2 d⟩
+    · rename_i hpol
+      rw [f1]
+      simp only [Engine.enqueue, hop, Bool.false_eq_true, ↓reduceIte]
+      rcases hq with ⟨rfl, rfl⟩ | ⟨rfl, d, rfl⟩
+      · simp only [Bool.false_eq_true, ↓reduceIte]
+        intro hd
+        obtain ⟨qq, c, dd⟩ := hD (by rw [← f5]; exact hd)
+        exact ⟨⟨qq.current, by show (e.createOp p user).1.highQ = []; rw [f4]; exact qq.highQ, qq.pendingWC, qq.timeouts⟩, c, dd⟩
+      · intro hd
+        exfalso
+        have hp : (e.createOp (.disconnect d) user).1.opPassesPolicy (.disconnect d) = true := by simpa using hpol
+        unfold Engine.opPassesPolicy at hp
+        have hd' : e.state = .disconnected := by
+          cases front <;> (simp only [] at hd; rw [← f5]; exact hd)
+        rw [f5, hd'] at hp
+        simp [passesPolicy_disconnect] at hp
+  · -- submission order
+    intro hc
+    unfold Engine.submit at hc ⊢
+    simp only [] at hc ⊢
+    split at hc
+    · rename_i hpol
+      simp only [hpol, ↓reduceIte]
+      rw [f1] at hc ⊢
+      have hk' := completeFailure_hk (e.createOp p user).1 e.nextOpId "OfflineQueuePolicyFailed"
+      have hconn : e.state = .connected := by rw [← f5]; exact hk'.sv.conn hc
+      have := hS hconn
+      rw [show (Engine.completeFailure _ _ _).1.view.userQ = ((e.createOp p user).1.completeFailure e.nextOpId "OfflineQueuePolicyFailed").1.userQ from rfl,
+        show (Engine.completeFailure _ _ _).1.view.resubQ = ((e.createOp p user).1.completeFailure e.nextOpId "OfflineQueuePolicyFailed").1.resubQ from rfl,
+        (completeFailure_same _ _ _).userQ, (completeFailure_same _ _ _).resubQ, f3]
+      exact this
+    · rename_i hpol
+      simp only [hpol, Bool.false_eq_true, ↓reduceIte]
+      rw [f1] at hc ⊢
+      simp only [Engine.enqueue, hop, Bool.false_eq_true, ↓reduceIte] at hc ⊢
+      rcases hq with ⟨rfl, rfl⟩ | ⟨rfl, d, rfl⟩
+      · simp only [Bool.false_eq_true, ↓reduceIte] at hc ⊢
+        have hconn : e.state = .connected := by rw [← f5]; exact hc
+        have := hS hconn
+        refine ⟨?_, this.2⟩
+        show sortedNat ((e.createOp p user).1.userQ ++ [e.nextOpId]) = true
+        rw [f3]
+        exact sortedNat_append_singleton _ _ this.1 (fun y hy => Nat.le_of_lt (h.qb.1 y (by simp only [List.mem_append]; exact .inl (.inl (.inl hy)))))
+      · have hconn : e.state = .connected := by
+          cases front <;> (simp only [] at hc; rw [← f5]; exact hc)
+        have := hS hconn
+        cases front <;> exact this
+
+theorem handleUser_inv (e : Engine) (u : UserEvent) (hinv : Inv e) : Inv (e.handleUser u).1 := by
+  cases u with
+  | publish p i t => exact submit_inv e (.publish p) (some (i, t)) .user false (fun _ => rfl) (.inl ⟨rfl, rfl⟩) hinv
+  | subscribe p i t => exact submit_inv e (.subscribe p) (some (i, t)) .user false (fun _ => rfl) (.inl ⟨rfl, rfl⟩) hinv
+  | unsubscribe p i t => exact submit_inv e (.unsubscribe p) (some (i, t)) .user false (fun _ => rfl) (.inl ⟨rfl, rfl⟩) hinv
+  | disconnect p => exact submit_inv e (.disconnect p) none .high true (by simp) (.inr ⟨rfl, p, rfl⟩) hinv
+
+theorem enqueue_state (e : Engine) (id : Nat) (q : QueueKind) (front : Bool) (e2 : Engine) (h : e.enqueue id q front = some e2) : e2.state = e.state := by
+  unfold Engine.enqueue at h
+  split at h
+  · cases h
+  · cases q <;> simp only [] at h <;> cases h <;> rfl
+
+theorem handleOpened_state (e : Engine) (d : Nat) : (e.handleOpened d).1.state = .halted ∨ (e.handleOpened d).1.state = .pendingConnack := by
+  unfold Engine.handleOpened
+  split
+  · exact .inl rfl
+  · simp only []
+    right
+    generalize hE1 : ({ e with state := .pendingConnack, current := none, pendingWrite := false, dec := {} } : Engine) = e1
+    have hs1 : e1.state = .pendingConnack := by rw [← hE1]
+    cases henq : (e1.createOp e1.createConnect none).1.enqueue (e1.createOp e1.createConnect none).2 .high true with
+    | none => exact hs1
+    | some e3 => exact (enqueue_state _ _ _ _ _ henq).trans hs1
+
+theorem handleOpened_inv (e : Engine) (d : Nat) (hinv : Inv e) : Inv (e.handleOpened d).1 := by
+  obtain ⟨hok, h, hD, hS⟩ := hinv
+  have st := handleOpened_stp e d hD
+  have hs := handleOpened_state e d
+  refine ⟨(st.pres hok).1, st.keeps hok h, ?_, ?_⟩
+  · intro hd
+    rcases hs with a | a <;> (rw [show (e.handleOpened d).1.view.state = (e.handleOpened d).1.state from rfl, a] at hd; cases hd)
+  · intro hd
+    rcases hs with a | a <;> (rw [show (e.handleOpened d).1.view.state = (e.handleOpened d).1.state from rfl, a] at hd; cases hd)
+
+theorem completeSuccess_qv (e : Engine) (id : Nat) (c : Option Completion) : QV e.view (e.completeSuccess id c).1.view := by
+  cases ho : e.op? id with
+  | none => simp only [Engine.completeSuccess, ho]; exact QV.refl _
+  | some o =>
+    obtain ⟨s', hv, hs⟩ := completeSuccess_view e id c o ho
+    rw [hv]
+    exact ⟨rfl, rfl, hs.elim .inl (fun a => .inr a.2)⟩
+
+theorem succeedAll_qv (e : Engine) (ids : List Nat) : QV e.view (e.succeedAll ids).1.view := by
+  unfold Engine.succeedAll
+  have : ∀ (l : List Nat) (acc : Engine × Res), QV acc.1.view (l.foldl (fun (acc : Engine × Res) id =>
+      match acc.1.completeSuccess id none with | (e', r) => (e', acc.2.fold r)) acc).1.view := by
+    intro l
+    induction l with
+    | nil => intro acc; exact QV.refl _
+    | cons x xs ih => intro acc; exact (completeSuccess_qv acc.1 x none).trans (ih _)
+  exact this ids (e, .ok)
+
+theorem handleWriteCompletion_inv (e : Engine) (hinv : Inv e) : Inv e.handleWriteCompletion.1 := by
+  obtain ⟨hok, h, hD, hS⟩ := hinv
+  have st := handleWriteCompletion_stp e
+  have hqv : QV e.view e.handleWriteCompletion.1.view ∧ (e.state = .disconnected → e.handleWriteCompletion.1 = e) := by
+    unfold Engine.handleWriteCompletion
+    split
+    · exact ⟨QV.refl _, fun _ => rfl⟩
+    · rename_i hst
+      have hnd : e.state ≠ .disconnected := by intro hh; rw [hh] at hst; simp at hst
+      split
+      · exact ⟨⟨rfl, rfl, .inr rfl⟩, fun hh => absurd hh hnd⟩
+      · simp only []
+        have a : QV e.view ({ e with pendingWrite := false, pendingWC := [] } : Engine).view := ⟨rfl, rfl, .inl rfl⟩
+        exact ⟨a.trans (succeedAll_qv _ _), fun hh => absurd hh hnd⟩
+  by_cases hd : e.state = .disconnected
+  · rw [hqv.2 hd]; exact ⟨hok, h, hD, hS⟩
+  · exact ((HK.mk st hqv.1).inv ⟨hok, h, hD, hS⟩ hd).1
+
+/-- `reset` (client closed): everything is dropped -/
+theorem reset_inv (e : Engine) (hinv : Inv e) : Inv e.reset := by
+  obtain ⟨hok, h, hD, hS⟩ := hinv
+  have hokr := (reset_pres e hok).1
+  unfold Engine.reset at hokr ⊢
+  simp only [] at hokr ⊢
+  have hst0 : (if e.state != .disconnected then ({ e with state := .halted } : Engine) else e).state = .halted ∨
+      (if e.state != .disconnected then ({ e with state := .halted } : Engine) else e).state = .disconnected := by
+    split
+    · exact .inl rfl
+    · rename_i hh; right; simpa using hh
+  generalize (if e.state != .disconnected then ({ e with state := .halted } : Engine) else e) = e0 at hst0 hokr ⊢
+  have hst1 : (e0.failAll (e0.ops.map (·.1)) "ClientClosed").1.state = e0.state :=
+    failAll_state _ _ e0 (by rcases hst0 with a | a <;> (rw [a]; decide))
+  have hno : (e0.failAll (e0.ops.map (·.1)) "ClientClosed").1.nextOpId = e0.nextOpId := (failAll_same _ _ e0).nextOpId
+  generalize e0.failAll (e0.ops.map (·.1)) "ClientClosed" = y at hst1 hno hokr ⊢
+  obtain ⟨e1, r⟩ := y
+  simp only [] at hst1 hno hokr ⊢
+  have hs : e1.state = .halted ∨ e1.state = .disconnected := by rw [hst1]; exact hst0
+  refine ⟨hokr, ?_, ?_, ?_⟩
+  · refine { p1s := KeysSorted.nil, p1r := ⟨(fun x hx => by cases hx), Nat.le_refl 1, (by show (1 : Nat) ≤ 65535; omega)⟩, p2 := (fun q i hq => by cases hq),
+             p3 := (fun i x q hx => by cases hx), p4 := (fun i x q hx => by cases hx), n := (fun i x hx => by cases hx),
+             tps := KeysSorted.nil, tp := (fun q i hq => by cases hq), tns := KeysSorted.nil, tn := (fun q i hq => by cases hq),
+             wc := (fun i hi => by cases hi), loc := (fun i x hx => by cases hx), pr := (fun i x hx => by cases hx),
+             h2 := (fun i hi => by cases hi), pr2 := (fun i hi => by cases hi), h1 := ?_, c1 := ?_, f := ?_,
+             qb := ⟨(fun i hi => by cases hi), (fun i hi => by cases hi)⟩ }
+    · intro hh; rcases hs with a | a <;> (rw [show _ = e1.state from rfl, a] at hh; cases hh)
+    · intro hh; rcases hs with a | a <;> (rw [show _ = e1.state from rfl, a] at hh; cases hh)
+    · intro hh; rcases hs with a | a <;> (rw [show _ = e1.state from rfl, a] at hh; cases hh)
+  · intro _; exact ⟨rfl, rfl, rfl, rfl, rfl, rfl⟩
+  · intro hh; rcases hs with a | a <;> (rw [show _ = e1.state from rfl, a] at hh; cases hh)
+
+/-- **One step keeps the invariant**, whatever the event -/
+theorem step_inv (e : Engine) (ev : Event) (hinv : Inv e) : Inv (step e ev).1 := by
+  have hb : ∀ t, Inv (e.begin t) := fun t => hinv.of_eq rfl rfl |> fun _ => by
+    obtain ⟨hok, h, hD, hS⟩ := hinv
+    exact ⟨⟨hok.sorted, hok.ids, hok.userKind, hok.wc, hok.slow⟩, h, hD, hS⟩
+  have hf : ∀ (en : Engine) (r : Res), Inv en → Inv (en.finish r).1 := by
+    intro en r hi
+    obtain ⟨hok, h, hD, hS⟩ := hi
+    exact ⟨⟨hok.sorted, hok.ids, hok.userKind, hok.wc, hok.slow⟩, h, hD, hS⟩
+  have hh : ∀ (x : Engine × Res), Inv x.1 → Inv (haltOnErr x).1 := by
+    intro x hi
+    unfold haltOnErr
+    split
+    · exact hi.halt
+    · exact hi
+  cases ev with
+  | user t u => exact hf _ _ (handleUser_inv (e.begin t) u (hb t))
+  | opened t d => exact hf _ _ (hh _ (handleOpened_inv (e.begin t) d (hb t)))
+  | closed t => exact hf _ _ (hh _ (handleClosed_inv (e.begin t) (hb t)))
+  | data t bs => exact hf _ _ (hh _ (handleData_inv (e.begin t) bs (hb t)))
+  | writeDone t => exact hf _ _ (hh _ (handleWriteCompletion_inv (e.begin t) (hb t)))
+  | service t cap pre => exact hf _ _ (service_inv (e.begin t) cap pre (hb t))
+  | queryNext t => exact hb t
+  | reset t => exact hf _ _ (reset_inv (e.begin t) (hb t))
+
+theorem new_inv (cfg : Config) : Inv (Engine.new cfg) := by
+  refine ⟨new_core_ok cfg, ?_, ?_, ?_⟩
+  · exact { p1s := KeysSorted.nil, p1r := ⟨(fun x hx => by cases hx), Nat.le_refl 1, (by show (1 : Nat) ≤ 65535; omega)⟩, p2 := (fun q i hq => by cases hq),
+            p3 := (fun i x q hx => by cases hx), p4 := (fun i x q hx => by cases hx), n := (fun i x hx => by cases hx),
+            tps := KeysSorted.nil, tp := (fun q i hq => by cases hq), tns := KeysSorted.nil, tn := (fun q i hq => by cases hq),
+            wc := (fun i hi => by cases hi), loc := (fun i x hx => by cases hx), pr := (fun i x hx => by cases hx),
+            h2 := (fun i hi => by cases hi), pr2 := (fun i hi => by cases hi), h1 := (fun hh => by cases hh), c1 := (fun hh => by cases hh),
+            f := (fun hh => by cases hh), qb := ⟨(fun i hi => by cases hi), (fun i hi => by cases hi)⟩ }
+  · intro _; exact ⟨rfl, rfl, rfl, rfl, rfl, rfl⟩
+  · intro hh; cases hh
+
+/-- **Every history.**  The engine's invariant holds after any sequence of events from a fresh engine. -/
+theorem run_inv : ∀ (evs : List Event) (e : Engine), Inv e → Inv (runEvents e evs).1 := by
+  intro evs
+  induction evs with
+  | nil => intro e h; exact h
+  | cons ev rest ih =>
+    intro e h
+    simp only [runEvents]
+    exact ih (step e ev).1 (step_inv e ev h)
+
+/-- the engine's invariant after any history from a fresh engine -/
+theorem inv_after (cfg : Config) (evs : List Event) : Inv (runEvents (Engine.new cfg) evs).1 :=
+  run_inv evs _ (new_inv cfg)
+
 end GV
